@@ -1337,9 +1337,12 @@ def main(chk, args):
         "rotated; merge_sort on every sorted family among them (text" + ("/Parquet)" if not quick else ")")
     )
     minimise(chk)
+    # third pass: merge_sort(paths, score, text_columns) — identifier cells of text files (harness/c14text.py)
+    import c14text
+    c14text.run(chk, quick)
     lc = None
     if chk.tier == "thorough":      # both property modules
-        lcs = [common.leanchecker(m) for m in ("C14", "C14Paths", "C14Nested")]
+        lcs = [common.leanchecker(m) for m in ("C14", "C14Paths", "C14Nested", "C14Text")]
         lc = (all(x[0] for x in lcs), "".join(x[1] for x in lcs))
     chk.assumptions += [
         "scores are numbers exactly representable as float64 (integers, dyadic rationals) or +inf / -inf: no NaN, so "
@@ -1375,6 +1378,11 @@ def main(chk, args):
         "`columns=` without the priority column: the lookup raises (KeyError; ValueError for record rows) before "
         "anything is yielded (tallied as rejected)",
         "an input without rows makes both functions raise RuntimeError before the first row (tallied as rejected)",
+        "text_columns: the per-chunk type inference of pandas.read_csv on an identifier column is a parameter of the "
+        "model (C14_text_columns_* hold for every inference); the driver instantiates it with: all cells digit strings "
+        "-> int64 (007 -> 7), all cells digit strings or digits.digits with a decimal among them -> float64, otherwise "
+        "text; the generated spellings stay inside that domain (no signs, exponents, NA markers, empty cells) and the "
+        "decimals are dyadic; Parquet identifier columns are stored as strings",
     ]
     chk.finish(build, RULE, search=search, lc=lc,
                trusted_extra=["pandas read_csv/to_dict/iloc/concat, pyarrow Parquet read/write, numpy argmax/argmin"])
@@ -1386,7 +1394,11 @@ def replay(chk, path):
         print(json.dumps(info, indent=1)[:3000])
         return 0
     common.build_and_audit("C14")
-    eval_cases(chk, [from_json(info["case"])], tally=False)
+    if "text_columns_case" in info["case"]:
+        import c14text
+        c14text.replay_case(chk, info["case"]["text_columns_case"])
+    else:
+        eval_cases(chk, [from_json(info["case"])], tally=False)
     for sig, i in chk.spec_violations:
         print("REPRODUCED", sig, json.dumps(i, default=str)[:1500])
     return 1 if chk.spec_violations else 0
